@@ -466,6 +466,166 @@ fn main() {
             limit(&mut cr.violations, 3);
             cr
         }));
+        // ---- what the receiver needs arrives spread over several COPIES: a multi-packet FDT instance none of whose
+        // carousel copies arrives whole (the union does), and a carouselled object none of whose rounds arrives whole.
+        // "for an FDT instance listing the object and for every source block the receiver still gets at least k
+        // distinct encoding symbols" - from whichever copy.
+        let n_sp = ctx.tier.pick(2500usize, 120_000);
+        gens.push(Gen::new("spread_over_copies", n_sp, move |ctx, i| {
+            let mut rng = Rng::keyed(ctx.seed, "C02sp", 0, i as u64);
+            let mut cr = CaseResult::default();
+            let fdt_fec = *rng.pick(&[Fec::NoCode, Fec::NoCode, Fec::Rs28, Fec::Rs28Us]);
+            let mut fdt_oti = OtiSpec::new(fdt_fec, *rng.pick(&[48u16, 64, 96, 160]), *rng.pick(&[4u32, 8, 32]), if fdt_fec == Fec::NoCode { 0 } else { rng.range(1, 2) as u32 });
+            fdt_oti.inband_fti = true;
+            let mut spec = SenderSpec::new(fdt_oti);
+            spec.full_fdt = rng.chance(2, 3);
+            spec.interleave = rng.range(1, 3) as u8;
+            spec.fdt_carousel = CarouselSpec::DelayMs(*rng.pick(&[10u64, 25]));
+            let fec = *rng.pick(&ALL_FEC);
+            let b = if fec == Fec::Raptor { rng.range(4, 6) } else { rng.range(2, 4) } as u32;
+            let mut oti = OtiSpec::new(fec, 16, b, if fec == Fec::NoCode { 0 } else { rng.range(1, 2) as u32 });
+            oti.al = 4;
+            oti.inband_fti = rng.chance(1, 2);
+            let nblocks = rng.range(1, 3);
+            let t = if fec == Fec::Raptor { b as u64 * nblocks } else { rng.range(nblocks.max(2), b as u64 * nblocks) };
+            let len = if fec == Fec::Raptor { t * 16 } else { (t - 1) * 16 + rng.range(1, 16) } as usize;
+            let mut o = ObjSpec::new(rng.bytes(len), "file:///spread/o.bin");
+            o.oti = Some(oti.clone());
+            let carouselled = rng.chance(1, 2);
+            if carouselled {
+                o.carousel = Some(CarouselSpec::DelayMs(*rng.pick(&[15u64, 40])));
+            } else {
+                o.max_transfer_count = rng.range(1, 2) as u32;
+            }
+            // several FDT copies go out before the object starts
+            o.start_ms = Some(*rng.pick(&[0u64, 60, 120]));
+            let script = vec![(When::Start, Op::Add(0)), (When::Start, Op::Publish)];
+            let mut opts = ScriptOpts::every(5, 140);
+            opts.drain = false;
+            opts.stop_when_empty = false;
+            let run = match util::guarded(|| run_script(&spec, &[o], &script, &opts)) {
+                Ok(Ok(r)) => r,
+                _ => return cr,
+            };
+            if run.tois[0].is_none() {
+                return cr;
+            }
+            let mut sh = make_shape(format!("spread{}", i), run.into_emitted());
+            sh.late_fdt = true;
+            let ov = match sh.views.first() {
+                Some(v) => v,
+                None => return cr,
+            };
+            let needle = format!("TOI=\"{}\"", ov.toi);
+            // copies of one (instance | object): a new copy starts when a (sbn, esi) repeats
+            let copies_of = |idx: &[usize]| -> Vec<Vec<usize>> {
+                let mut out: Vec<Vec<usize>> = vec![];
+                let mut seen = std::collections::HashSet::new();
+                for k in idx {
+                    let key = (sh.em.stream[*k].dec.sbn, sh.em.stream[*k].dec.esi);
+                    if out.is_empty() || !seen.insert(key) {
+                        out.push(vec![]);
+                        seen.clear();
+                        seen.insert(key);
+                    }
+                    out.last_mut().unwrap().push(*k);
+                }
+                out
+            };
+            // split what a decoder needs (k symbols per block, chosen at random for Reed-Solomon, the source symbols
+            // otherwise) between copy 0 and copy 1; nothing else of these copies is delivered
+            let split = |rng: &mut Rng, copies: &[Vec<usize>], fec: Fec, part: &Part, keep: &mut std::collections::BTreeSet<usize>| -> bool {
+                if copies.len() < 2 {
+                    return false;
+                }
+                let mut any_split = false;
+                for sbn in 0..part.n as u32 {
+                    let k = part.k(sbn as u128) as usize;
+                    let mut esis: Vec<u32> = copies[0].iter().filter(|x| sh.em.stream[**x].dec.sbn == sbn).map(|x| sh.em.stream[*x].dec.esi).collect();
+                    if fec.is_rs() {
+                        rng.shuffle(&mut esis);
+                        esis.truncate(k);
+                    } else {
+                        esis.retain(|e| (*e as usize) < k);
+                    }
+                    if esis.len() < k {
+                        return false;
+                    }
+                    let cut = if k >= 2 { rng.range(1, k as u64 - 1) as usize } else { rng.below(2) as usize };
+                    if k >= 2 {
+                        any_split = true;
+                    }
+                    for (n, e) in esis.iter().enumerate() {
+                        let from = if n < cut { 0 } else { 1 };
+                        match copies[from].iter().find(|x| sh.em.stream[**x].dec.sbn == sbn && sh.em.stream[**x].dec.esi == *e) {
+                            Some(x) => {
+                                keep.insert(*x);
+                            }
+                            None => return false,
+                        }
+                    }
+                }
+                any_split
+            };
+            let (mut n_dec, mut n_runs, mut n_fdt_split, mut n_obj_split) = (0, 0, 0u64, 0u64);
+            for round in 0..4 {
+                let mut keep: std::collections::BTreeSet<usize> = Default::default();
+                // FDT: the first instance listing the object is split over its first two copies, later copies of it are
+                // lost; other instances arrive at random
+                let mut fdt_split = false;
+                let mut done_listing = false;
+                for f in &sh.fdts {
+                    let lists = f.xml.as_ref().map(|x| x.contains(&needle)).unwrap_or(false);
+                    let copies = copies_of(&f.idx);
+                    if lists && !done_listing {
+                        let part = ref_partition(sh.em.spec.oti.b as u128, f.tl as u128, sh.em.spec.oti.e as u128);
+                        if round % 2 == 0 && split(&mut rng, &copies, sh.em.spec.oti.fec, &part, &mut keep) {
+                            fdt_split = true;
+                        } else if let Some(c) = copies.first() {
+                            keep.extend(c.iter().copied());
+                        }
+                        done_listing = true;
+                    } else if !lists {
+                        for c in copies {
+                            if rng.chance(1, 3) {
+                                keep.extend(c.iter().copied());
+                            }
+                        }
+                    }
+                }
+                // object: split over its first two rounds (carousel / second transfer), or the first round whole
+                let ocopies = copies_of(&ov.idx);
+                let mut obj_split = false;
+                if round >= 1 && split(&mut rng, &ocopies, ov.fec, &ov.part, &mut keep) {
+                    obj_split = true;
+                    // the close-object packet of a non-final copy does not exist; the final one's may or may not arrive
+                } else if let Some(c) = ocopies.first() {
+                    keep.extend(c.iter().copied());
+                }
+                if !fdt_split && !obj_split {
+                    continue;
+                }
+                n_fdt_split += fdt_split as u64;
+                n_obj_split += obj_split as u64;
+                let delivered: Vec<usize> = keep.into_iter().collect();
+                let tag = match (fdt_split, obj_split) { (true, true) => "fdt_and_object_spread", (true, false) => "fdt_spread", _ => "object_spread" };
+                let (d, _) = deliver(&sh, &delivered, tag, &mut cr.violations);
+                n_dec += d;
+                n_runs += 1;
+            }
+            cr.count("deliveries", n_runs);
+            cr.count("decodable_deliveries", n_dec);
+            cr.count("fdt_instance_spread_over_copies", n_fdt_split);
+            cr.count("object_spread_over_rounds", n_obj_split);
+            if n_dec > 0 {
+                cr.shape = Some(util::fnv(&format!("spread|{}|{}|{}", obj_shape(&sh.em.objs[0], sh.em.oti_of(0), sh.em.transfer_len[0].unwrap_or(0)), sh.em.spec.oti.fec.name(), carouselled)));
+            }
+            if i % 211 == 0 {
+                cr.sample = Some(json!({"session": sh.em.json(), "fdt_instances": sh.fdts.len(), "deliveries": n_runs, "decodable": n_dec, "fdt_split": n_fdt_split, "object_split": n_obj_split}));
+            }
+            limit(&mut cr.violations, 3);
+            cr
+        }));
         gens
     });
 }
